@@ -122,7 +122,7 @@ def keyBytesOf (m : List (Bytes × Bytes)) : Bytes := (m.map (·.1)).flatten
 /-- one iteration of the member loop of `build_object` -/
 theorem bo_loop1_step (kv : Bytes × Bytes) (buf kd vd : Bytes) (vj : List Bytes) (len : Nat)
     (hlen : kv.2.length < 9223372036854775808) :
-    Tr.build_object.loop1 kv (buf, kd, vd, vj, ((len : Nat) : Int)) =
+    Tr.build_object_into.loop1 kv (buf, kd, vd, vj, ((len : Nat) : Int)) =
       match Fn.partOf kv.2 with
       | .ok (w, d) =>
         if len + 1 < 4294967296 then
@@ -133,7 +133,7 @@ theorem bo_loop1_step (kv : Bytes × Bytes) (buf kd vd : Bytes) (vj : List Bytes
       | .panic s => Ctl.ret (.panic s)
       | .fuel => Ctl.ret .fuel := by
   obtain ⟨key, value⟩ := kv
-  unfold Tr.build_object.loop1 Fn.partOf
+  unfold Tr.build_object_into.loop1 Fn.partOf
   dsimp only
   rw [read_u32_zero]
   cases hr : readU32At value 0 with
@@ -177,7 +177,7 @@ theorem bo_loop1_step (kv : Bytes × Bytes) (buf kd vd : Bytes) (vj : List Bytes
 /-- the member loop: key words into `buf`, key bytes, value data and value words collected -/
 theorem bo_loop1_run : ∀ (m : List (Bytes × Bytes)) (buf kd vd : Bytes) (vj : List Bytes) (len : Nat),
     (∀ kv ∈ m, kv.2.length < 9223372036854775808) → len + m.length < 4294967296 →
-    (Rs.forIn m (buf, kd, vd, vj, ((len : Nat) : Int)) Tr.build_object.loop1 :
+    (Rs.forIn m (buf, kd, vd, vj, ((len : Nat) : Int)) Tr.build_object_into.loop1 :
         Ctl Bytes (Bytes × Bytes × Bytes × List Bytes × Int)) =
       match partWords (m.map (·.2)) with
       | .ok (ws, ds) => Ctl.val (buf ++ keyWordsOf m, kd ++ keyBytesOf m, vd ++ ds, vj ++ ws, ((len + m.length : Nat) : Int))
@@ -212,36 +212,37 @@ theorem bo_loop1_run : ∀ (m : List (Bytes × Bytes)) (buf kd vd : Bytes) (vj :
     | fuel => rw [hp] at hstep; exact Rs.forIn_ret _ _ _ _ _ hstep
 
 theorem bo_loop2_step (idx k : Nat) (b : UInt8) (buf : Bytes) (h : idx + k < buf.length) (hl : buf.length < 18446744073709551616) :
-    Tr.build_object.loop2 (idx : Int) ((k : Int), ((b.toNat : Nat) : Int)) buf = Ctl.val (.next (buf.set (idx + k) b)) := by
-  unfold Tr.build_object.loop2
+    Tr.build_object_into.loop2 (idx : Int) ((k : Int), ((b.toNat : Nat) : Int)) buf = Ctl.val (.next (buf.set (idx + k) b)) := by
+  unfold Tr.build_object_into.loop2
   dsimp only
   simp only [Rs.add_usize_nat _ _ (show idx + k < 18446744073709551616 by omega), Ctl.ofRes_ok', Ctl.val_bind', setIndex_nat,
     if_pos h, Ctl.pure_eq', Rs.loopStep_val']
 
 /-- `while let Some(w) = val_jentries.pop_front() { buf.extend_from_slice(&w) }` -/
 theorem bo_loop3_run : ∀ (vj : List Bytes) (n : Nat) (buf : Bytes), vj.length < n →
-    (Rs.whileFuel n (vj, buf) Tr.build_object.loop3 : Ctl Bytes (List Bytes × Bytes)) = Ctl.val ([], buf ++ vj.flatten)
+    (Rs.whileFuel n (vj, buf) Tr.build_object_into.loop3 : Ctl Bytes (List Bytes × Bytes)) = Ctl.val ([], buf ++ vj.flatten)
   | [], n, buf, h => by
     obtain ⟨n, rfl⟩ : ∃ m, n = m + 1 := ⟨n - 1, by simp at h; omega⟩
-    have hs : Tr.build_object.loop3 ([], buf) = (Ctl.val (.done ([], buf)) : Ctl Bytes (Step (List Bytes × Bytes))) := by
-      unfold Tr.build_object.loop3
+    have hs : Tr.build_object_into.loop3 ([], buf) = (Ctl.val (.done ([], buf)) : Ctl Bytes (Step (List Bytes × Bytes))) := by
+      unfold Tr.build_object_into.loop3
       simp only [Rs.popFront, Rs.loopStep_brk']
     rw [Rs.whileFuel_done _ _ _ _ hs]
     simp
   | w :: rest, n, buf, h => by
     obtain ⟨n, rfl⟩ : ∃ m, n = m + 1 := ⟨n - 1, by simp at h; omega⟩
-    have hs : Tr.build_object.loop3 (w :: rest, buf) = (Ctl.val (.next (rest, buf ++ w)) : Ctl Bytes (Step (List Bytes × Bytes))) := by
-      unfold Tr.build_object.loop3
+    have hs : Tr.build_object_into.loop3 (w :: rest, buf) = (Ctl.val (.next (rest, buf ++ w)) : Ctl Bytes (Step (List Bytes × Bytes))) := by
+      unfold Tr.build_object_into.loop3
       simp only [Rs.popFront, Rs.extendFromSlice, Ctl.pure_eq', Rs.loopStep_val']
     rw [Rs.whileFuel_next _ _ _ _ hs, bo_loop3_run rest n (buf ++ w) (by simp at h; omega)]
     simp
 
-/-- **`build_object`** (for a list of (key, bytes) pairs) is the model's `buildObject` -/
-theorem build_object_agrees (items : List (Bytes × Bytes)) (buf : Bytes)
+/-- the body of `build_object` (the private `build_object_into`, for a list of (key, bytes) pairs) is the model's
+`buildObject` -/
+theorem build_object_into_agrees (items : List (Bytes × Bytes)) (buf : Bytes)
     (hn : items.length < 4294967296) (hb : buf.length < 4611686018427387904)
     (hi : ∀ kv ∈ items, kv.2.length < 9223372036854775808) :
-    Tr.build_object items buf = Fn.buildObject items buf := by
-  unfold Tr.build_object Fn.buildObject
+    Tr.build_object_into items buf = Fn.buildObject items buf := by
+  unfold Tr.build_object_into Fn.buildObject
   have h4 : ((4 : Nat) : Int) = 4 := rfl
   have h0 : ((0 : Nat) : Int) = 0 := rfl
   have hid : List.map (fun (x : Bytes × Bytes) => (x.1, x.2)) items = items := by simp
@@ -314,7 +315,7 @@ theorem build_object_agrees (items : List (Bytes × Bytes)) (buf : Bytes)
       | cons a m ih => simp only [List.map_cons, List.flatten_cons, List.length_append, u32be_length, ih, List.length_cons]; omega
     simp only [Ctl.val_bind', Nat.zero_add, Rs.bitor_natCast, Nat.or_comm m.length C.OBJECT_CONTAINER_TAG, Rs.toBeBytes_u32_nat _ hw, Rs.enumerate, List.nil_append, hmod,
       Res.map, Res.bind]
-    have hrun := patch_run (ρ := Bytes) buf.length (Tr.build_object.loop2 (buf.length : Int))
+    have hrun := patch_run (ρ := Bytes) buf.length (Tr.build_object_into.loop2 (buf.length : Int))
       (fun k b bf h hl => bo_loop2_step buf.length k b bf h hl) (beN 4 (C.OBJECT_CONTAINER_TAG ||| m.length)) 0
       (buf ++ zeros 4 ++ keyWordsOf m) (by simp [zeros, beN]) (by simp [zeros]; omega)
     rw [hrun]
@@ -324,5 +325,18 @@ theorem build_object_agrees (items : List (Bytes × Bytes)) (buf : Bytes)
     simp only [Ctl.val_bind']
     rw [bo_loop3_run ws _ _ (by simp [Rs.len])]
     simp only [Ctl.val_bind', Rs.extendFromSlice, Ctl.run_ret', u32be, List.append_assoc, keyWordsOf, keyBytesOf]
+
+/-- the public `build_object` — `let start = buf.len(); let res = build_object_into(items, buf); if res.is_err() {
+buf.truncate(start); } res` — is translated as the outcome of `build_object_into` (the buffer is carried by `.ok` only) -/
+theorem build_object_eq_into (items : List (Bytes × Bytes)) (buf : Bytes) :
+    Tr.build_object items buf = Tr.build_object_into items buf := rfl
+
+/-- **`build_object`** (for a list of (key, bytes) pairs) is the model's `buildObject` -/
+theorem build_object_agrees (items : List (Bytes × Bytes)) (buf : Bytes)
+    (hn : items.length < 4294967296) (hb : buf.length < 4611686018427387904)
+    (hi : ∀ kv ∈ items, kv.2.length < 9223372036854775808) :
+    Tr.build_object items buf = Fn.buildObject items buf := by
+  rw [build_object_eq_into]
+  exact build_object_into_agrees items buf hn hb hi
 
 end Jsonb.TrAgree
